@@ -204,6 +204,11 @@ static void judge(const struct enc* e, uint64_t v, bool distinct) {
   bool okv;
   if (want == S_BYTES || want == S_TEXT) okv = ev->slot == want && ev->len == v && ev->ptr == b + el;
   else okv = ev->slot == want && ev->val == wv && ev->isnan == wnan;
+  if ((vf_cnt_get_local(VC_EVAL) & 0xffff) == 77) {
+    char hx[40];
+    vf_hex(hx, sizeof hx, exp, el);
+    vf_sample("%s(%#" PRIx64 ") -> %s ; decoded by callback %s, read %zu", e->name, v, hx, vf_slot_name[ev->slot], r.read);
+  }
   if (!okv) {
     vf_sb_reset(&sb);
     vf_event_render(ev, b, &sb);
@@ -422,6 +427,7 @@ static void one_half(unsigned h) {
     if (w != 3 || memcmp(o, outb, 3)) vf_fail(NULL, "cbor_encode_half of the value of %04x gives %02x%02x%02x", h, o[0], o[1], o[2]);
   }
   via_item(in, 3, outb, 16, ref, nan);
+  if ((h & 0x1fff) == 0x1234) vf_sample("half %04x -> binary32 %08x%s -> re-encoded f9%02x%02x", h, ref, nan ? " (NaN)" : "", outb[1], outb[2]);
   vf_state(vf_mix(16, (h >> 10) & 63));
 }
 static void one_single(uint32_t s, bool item, bool distinct) {
